@@ -6,7 +6,7 @@ use crate::json::J;
 use crate::refmodel::asm::{encode, Unencodable};
 use crate::report::{Meta, Report};
 use crate::rng::Rng;
-use crate::util::{catch, par_items};
+use crate::util::{catch, par_items, Panic};
 use crate::{obj, Ctx};
 use emulator_2a_lib::compiler::Translator;
 use emulator_2a_lib::machine::{Machine, MachineConfig};
@@ -16,10 +16,10 @@ use std::process::{Command, Stdio};
 pub fn meta() -> Meta {
     Meta {
         id: "C06",
-        rule: "seeded programs from the grammar generator WITHOUT layout restrictions (labels referenced in any letter case, DEC with every operand shape, .ORG to any address relative to the current one, images from 0 to beyond 256 bytes built from .BYTE/.DB/.DW/.ORG mixes, 0-40 labels, header-only files); every program the real parser accepts is compiled and loaded (Machine::load and Machine::new_with_program) under catch_unwind; a sample is written to disk and pushed through the real binary: `2a-emulator verify` exit 0 must imply that `2a-emulator run <file> 0` does not die from a panic. distinct_nontrivial counts distinct (layout class, image-size bucket, uses mixed-case refs, uses DEC memory forms) classes of accepted programs",
+        rule: "seeded programs from the grammar generator WITHOUT layout restrictions (labels referenced in any letter case, DEC with every operand shape, .ORG to any address relative to the current one, images from 0 to beyond 256 bytes built from .BYTE/.DB/.DW/.ORG mixes, 0-40 labels, header-only files); every program the real parser accepts is compiled and loaded (Machine::load and Machine::new_with_program) under catch_unwind; a sample is written to disk and pushed through the real binary: `2a-emulator verify` exit 0 must imply that `2a-emulator run <file> 0` does not die from a panic. Loading is also exercised with a history: every well-formed program is loaded into a machine that has already held the previous well-formed programs of its batch (large images, every stack-size and program-size directive before it), and samples are loaded one after the other through the `load` command of the real interactive session (headless driver, real Tui::load_program incl. the program pane), where a PANIC line is the violation. distinct_nontrivial counts distinct (layout class, image-size bucket, uses mixed-case refs, uses DEC memory forms) classes of accepted programs",
         exhaustive: false,
         assumptions: vec!["panics are classified by the layout class of the program (well-formed / backward .ORG / image larger than the RAM, decided by the harness's own layout rules) and the panic site, so a known finding never hides a crash on a well-formed program"],
-        floors: vec![("accepted_programs", 20_000), ("compiled_and_loaded", 10_000), ("programs_with_backward_org", 500), ("programs_larger_than_ram", 500), ("programs_with_mixed_case_refs", 1_000), ("programs_with_dec_memory", 1_000), ("cli_pairs", 40), ("texts_with_undefined_label", 5_000), ("texts_with_duplicate_definitions", 5_000)],
+        floors: vec![("accepted_programs", 20_000), ("compiled_and_loaded", 10_000), ("programs_with_backward_org", 500), ("programs_larger_than_ram", 500), ("programs_with_mixed_case_refs", 1_000), ("programs_with_dec_memory", 1_000), ("cli_pairs", 40), ("texts_with_undefined_label", 5_000), ("texts_with_duplicate_definitions", 5_000), ("reloads_into_used_machine", 5_000), ("reloads_after_image_above_224", 100), ("tui_loads", 100), ("tui_loads_with_org_above_127", 10)],
     }
 }
 
@@ -32,7 +32,20 @@ fn layout_class(asm: &Asm) -> (&'static str, usize) {
     }
 }
 
-fn check_inprocess(asm: &Asm, rep: &mut Report) -> Option<(String, String)> {
+/// A machine that keeps the programs loaded before (the history of a session).
+pub struct Used {
+    m: Option<Machine>,
+    pub history: Vec<String>,
+    last_size: usize,
+}
+
+impl Used {
+    pub fn new() -> Self {
+        Used { m: None, history: vec![], last_size: 0 }
+    }
+}
+
+fn check_inprocess(asm: &Asm, text: &str, used: &mut Used, rep: &mut Report) -> Option<(String, String)> {
     let (class, size) = layout_class(asm);
     match class {
         "backward-org" => rep.inc("programs_with_backward_org"),
@@ -69,6 +82,38 @@ fn check_inprocess(asm: &Asm, rep: &mut Report) -> Option<(String, String)> {
     }
     if let Err(p) = catch(|| Machine::new_with_program(MachineConfig::default(), bc2)) {
         return Some((format!("C06:{}:panic:{}", class, p.site()), format!("Machine::new_with_program panicked: {} ({}:{})", p.msg, p.file, p.line)));
+    }
+    if class == "well-formed" {
+        // the same load, but into a machine with a past
+        let bc4 = match catch(|| Translator::compile(asm)) {
+            Ok(b) => b,
+            Err(_) => return None,
+        };
+        let mut m = used.m.take().unwrap_or_else(|| Machine::new(MachineConfig::default()));
+        used.history.push(text.to_string());
+        if used.history.len() > 3 {
+            used.history.remove(0);
+        }
+        match catch(move || {
+            m.load(bc4);
+            m.trigger_key_clock();
+            m
+        }) {
+            Ok(m) => {
+                used.m = Some(m);
+                if used.history.len() > 1 {
+                    rep.inc("reloads_into_used_machine");
+                    if used.last_size > 224 {
+                        rep.inc("reloads_after_image_above_224");
+                    }
+                }
+                used.last_size = size;
+            }
+            Err(p) => {
+                let r = Some((format!("C06:{}:reload-panic:{}", class, p.site()), format!("Machine::load into a machine that had loaded {} program(s) before panicked: {} ({}:{})", used.history.len() - 1, p.msg, p.file, p.line)));
+                return r;
+            }
+        }
     }
     rep.inc("compiled_and_loaded");
     rep.class(&[match class {
@@ -123,13 +168,84 @@ fn cli_pair(ctx: &Ctx, text: &str, tag: &str, rep: &mut Report) -> Option<(Strin
     res
 }
 
+/// Loads the given (well-formed, accepted) programs one after the other through the `load`
+/// command of the real interactive session. Returns (signature, what, number of programs up to
+/// and including the failing one).
+fn tui_loads(ctx: &Ctx, texts: &[String], tag: &str, rep: &mut Report) -> Option<(String, String, usize)> {
+    let emu = ctx.emu.as_ref()?;
+    let dir = ctx.work.join("c06").join(format!("tui-{}", tag));
+    let _ = std::fs::create_dir_all(&dir);
+    let mut script = String::from("SCRIPT s 100 40\nFUEL 400000\n");
+    let mut enters = vec![];
+    let mut step = 0usize;
+    for (j, t) in texts.iter().enumerate() {
+        let name = format!("a{}.asm", j);
+        if std::fs::write(dir.join(&name), t).is_err() {
+            return None;
+        }
+        for c in format!("load {}", name).chars() {
+            script.push_str(&format!("K c{:x} 0\n", c as u32));
+            step += 1;
+        }
+        script.push_str("K enter 0\n");
+        step += 1;
+        enters.push(step);
+    }
+    let sp = dir.join("script.txt");
+    if std::fs::write(&sp, script).is_err() {
+        return None;
+    }
+    let out = Command::new(emu).current_dir(&dir).env("VERIF_TUI_SCRIPT", &sp).env("TMPDIR", &dir).env("RUST_BACKTRACE", "0").stdin(Stdio::null()).stdout(Stdio::piped()).stderr(Stdio::null()).output();
+    let _ = std::fs::remove_dir_all(&dir);
+    let out = match out {
+        Ok(o) => o,
+        Err(e) => {
+            rep.inconclusive(format!("cannot start the session driver: {}", e));
+            return None;
+        }
+    };
+    let stdout = String::from_utf8_lossy(&out.stdout).to_string();
+    if !stdout.lines().any(|l| l == "DONE") {
+        rep.inconclusive(format!("session driver did not finish (status {:?})", out.status.code()));
+        return None;
+    }
+    let panic_line = stdout.lines().find(|l| l.starts_with("PANIC "));
+    let failed_step = panic_line.and_then(|l| l.split(' ').nth(2)).and_then(|n| n.parse::<usize>().ok());
+    let org_above = |t: &String| {
+        AsmParser::parse(t).map(|a| a.lines.iter().any(|l| matches!(l, Line::Instruction(Instruction::AsmOrigin(n), _) if *n > 127))).unwrap_or(false)
+    };
+    for (j, t) in texts.iter().enumerate() {
+        if failed_step.map(|f| enters[j] < f).unwrap_or(true) {
+            rep.inc("tui_loads");
+            if org_above(t) {
+                rep.inc("tui_loads_with_org_above_127");
+            }
+        }
+    }
+    let line = panic_line?;
+    if line.contains("clock edge fuel exhausted") {
+        rep.inconclusive(format!("fuel watchdog fired in the session driver: {}", line));
+        return None;
+    }
+    let f = failed_step.unwrap_or(0);
+    let j = enters.iter().position(|e| *e >= f).unwrap_or(texts.len() - 1);
+    let loc = line.split(" loc=").nth(1).and_then(|s| s.split(' ').next()).unwrap_or("?:0");
+    let p = Panic { file: loc.rsplitn(2, ':').nth(1).unwrap_or("?").to_string(), line: 0, msg: line.split(" msg=").nth(1).unwrap_or("").to_string() };
+    let phase = line.split(" phase=").nth(1).and_then(|s| s.split(' ').next()).unwrap_or("?");
+    let sig = if enters.contains(&f) { format!("C06:well-formed:tui-load-panic:{}", p.site()) } else { format!("C06:well-formed:tui-panic-after-load:{}", p.site()) };
+    Some((sig, format!("interactive session, program #{} of the session ({} loaded before), phase {}: {}", j, j, phase, line.split(" loc=").nth(1).unwrap_or(line)), j + 1))
+}
+
 pub fn run(ctx: &Ctx) -> Report {
     let n = ctx.size(300_000, 6_000_000) as usize;
     let cli_n = ctx.size(120, 3_000) as usize;
     let batches = (n + 199) / 200;
     let cli_every = (n / cli_n.max(1)).max(1);
+    let tui_every = (batches / (ctx.size(30, 600) as usize).max(1)).max(1);
     par_items(ctx.threads, batches, ctx.seed, move |i, seed, rep| {
         let mut rng = Rng::new(seed);
+        let mut used = Used::new();
+        let mut for_tui: Vec<String> = vec![];
         for k in 0..200 {
             let opts = hostile_opts(&mut rng);
             let mut g = asmtext::program(&mut rng, &opts);
@@ -139,6 +255,12 @@ pub fn run(ctx: &Ctx) -> Report {
                 1 => g.text.push_str(&format!("\n .ORG 40\n NOP\n .ORG {}\n", rng.below(40))),
                 2 => g.text.push_str("\n .ORG 0xEF\n NOP\n NOP\n NOP\n"),
                 3 => g.text.push_str("\n .ORG 255\n .DW 1, 2\n"),
+                // forward origins into the upper half and images that nearly fill the RAM (well-formed
+                // whenever the generated part is shorter)
+                8 => g.text.push_str(&format!("\n .ORG {}\n .DB 7\n", 128 + rng.below(100))),
+                9 => g.text.push_str(&format!("\n .ORG {}\n NOP\n", 225 + rng.below(14))),
+                10 => g.text.push_str(&format!("\n*STACKSIZE {}\n", ["0", "16", "32", "48", "64", "NOSET"][rng.usize(6)])),
+                11 => g.text.push_str(&format!("\n*PROGRAMSIZE {}\n", if rng.chance(1, 2) { 241 + rng.below(15) } else { rng.below(256) })),
                 6 | 7 => {
                     // the same name defined twice (parser does not forbid it): label/label in another
                     // case, label/.EQU, .EQU/.EQU
@@ -187,8 +309,16 @@ pub fn run(ctx: &Ctx) -> Report {
             if lower_upper {
                 rep.inc("programs_with_mixed_case_refs");
             }
-            if let Some((sig, what)) = check_inprocess(&asm, rep) {
-                rep.violate(&sig, what, obj![("text", g.text.clone())]);
+            if let Some((sig, what)) = check_inprocess(&asm, &g.text, &mut used, rep) {
+                if sig.contains(":reload-panic:") {
+                    rep.violate(&sig, what, obj![("history", J::Arr(used.history.iter().map(|t| J::from(t.clone())).collect()))]);
+                    used = Used::new();
+                } else {
+                    rep.violate(&sig, what, obj![("text", g.text.clone())]);
+                }
+            }
+            if i % tui_every == 0 && for_tui.len() < 12 && layout_class(&asm).0 == "well-formed" && (matches!((i * 200 + k) % 16, 8 | 9 | 10 | 11) || rng.chance(1, 6)) {
+                for_tui.push(g.text.clone());
             }
             if (i * 200 + k) % cli_every == 0 {
                 if let Some((sig, what)) = cli_pair(ctx, &g.text, &format!("{}-{}", i, k), rep) {
@@ -199,16 +329,40 @@ pub fn run(ctx: &Ctx) -> Report {
                 rep.sample(obj![("text", g.text.clone()), ("layout_class", layout_class(&asm).0)]);
             }
         }
+        if !for_tui.is_empty() {
+            if let Some((sig, what, upto)) = tui_loads(ctx, &for_tui, &format!("{}", i), rep) {
+                rep.violate(&sig, what, obj![("tui_history", J::Arr(for_tui.iter().take(upto).map(|t| J::from(t.clone())).collect()))]);
+            }
+        }
     })
 }
 
 pub fn replay(ctx: &Ctx, w: &J) -> Report {
     let mut rep = Report::new();
     rep.evaluations = 1;
+    let texts = |k: &str| -> Option<Vec<String>> { w.get(k).and_then(|a| a.as_arr()).map(|a| a.iter().filter_map(|t| t.as_str().map(|s| s.to_string())).collect()) };
+    if let Some(h) = texts("history") {
+        let mut used = Used::new();
+        for t in &h {
+            if let Ok(Ok(asm)) = catch(|| AsmParser::parse(t)) {
+                if let Some((sig, what)) = check_inprocess(&asm, t, &mut used, &mut rep) {
+                    rep.violate(&sig, what, w.clone());
+                    break;
+                }
+            }
+        }
+        return rep;
+    }
+    if let Some(h) = texts("tui_history") {
+        if let Some((sig, what, _)) = tui_loads(ctx, &h, "replay", &mut rep) {
+            rep.violate(&sig, what, w.clone());
+        }
+        return rep;
+    }
     let text = w.get("text").and_then(|t| t.as_str()).unwrap_or("");
     match catch(|| AsmParser::parse(text)) {
         Ok(Ok(asm)) => {
-            if let Some((sig, what)) = check_inprocess(&asm, &mut rep) {
+            if let Some((sig, what)) = check_inprocess(&asm, text, &mut Used::new(), &mut rep) {
                 rep.violate(&sig, what, obj![("text", text)]);
             }
             if w.get("cli").is_some() {
